@@ -237,6 +237,11 @@ fn value_passthrough(rep: &Report) -> u64 {
             ("condition-any-member", Box::new(|d| build_any_d(Query::update().table(a("t1")).value(a("a"), 1).cond_where(Cond::any().add(SimpleExpr::from(Expr::val(v.clone()))).add(Cond::all().not().add(SimpleExpr::from(Expr::val(v.clone()))).add(Expr::col(a("a")).eq(2)))), d)), vec![one.clone(), v.clone(), v.clone(), two.clone()]),
             ("condition-single-member", Box::new(|d| build_any_d(Query::delete().from_table(a("t1")).and_where(SimpleExpr::from(Expr::val(v.clone()))), d)), vec![v.clone()]),
             ("join-on-condition-member", Box::new(|d| build_any_d(Query::select().column(a("a")).from(a("t1")).join(JoinType::InnerJoin, a("t2"), Cond::any().add(SimpleExpr::from(Expr::val(v.clone()))).add(Expr::col((a("t2"), a("a"))).eq(1))).and_where(Expr::case(Cond::all().add(SimpleExpr::from(Expr::val(v.clone()))), 1).finally(2).into()), d)), vec![v.clone(), one.clone(), v.clone(), one.clone(), two.clone()]),
+            // clauses assembled by several calls of different spellings: every call adds to what the earlier ones gave
+            ("function-arg-then-args", Box::new(|d| build_any_d(Query::select().expr(Func::cust(a("f")).arg(v.clone()).args([Expr::val(v.clone()).into(), SimpleExpr::from(Expr::val(1))]).arg(2)), d)), vec![v.clone(), one.clone(), two.clone()]), // `args` is documented to REPLACE the arguments given so far
+            ("union-then-unions", Box::new(|d| build_any_d(Query::select().expr(Expr::val(v.clone())).union(UnionType::All, Query::select().expr(Expr::val(1)).to_owned()).unions([(UnionType::All, Query::select().expr(Expr::val(v.clone())).to_owned()), (UnionType::Distinct, Query::select().expr(Expr::val(2)).to_owned())]).union(UnionType::All, Query::select().expr(Expr::val(v.clone())).to_owned()), d)), vec![v.clone(), one.clone(), v.clone(), two.clone(), v.clone()]),
+            ("values-then-values", Box::new(|d| build_any_d(Query::update().table(a("t1")).values([(a("s"), Expr::val(v.clone()).into())]).value(a("a"), 1).values([(a("b"), SimpleExpr::from(Expr::val(2))), (a("s"), Expr::val(v.clone()).into())]), d)), vec![v.clone(), one.clone(), two.clone(), v.clone()]),
+            ("columns-exprs-then-expr", Box::new(|d| build_any_d(Query::select().exprs([Expr::val(v.clone()), Expr::val(1)]).expr(Expr::val(v.clone())).exprs([Expr::val(2)]).from(a("t1")).conditions(true, |q| { q.and_where(Expr::col(a("s")).ne(v.clone())); }, |_| {}), d)), vec![v.clone(), one.clone(), v.clone(), two.clone(), v.clone()]),
             ("on-conflict-and-returning", Box::new(|d| build_any_d(Query::insert().into_table(a("t1")).columns([a("id"), a("s")]).values_panic([1.into(), Expr::val(v.clone()).into()]).on_conflict(OnConflict::column(a("id")).value(a("s"), Expr::val(v.clone())).to_owned()), d)), vec![one.clone(), v.clone(), v.clone()]),
         ];
         for (pos, f, want) in &cases {
